@@ -437,10 +437,12 @@ pub fn run(run: &mut Run) {
     }
     run.assumptions.push("bounds are compared within 1e-13 absolute plus the quantile allowance (DESIGN §4.4); n*p and n*q of the Wald rule are the integers k and n-k".into());
     run.assumptions.push("for one-sided levels below 1/2 the finite bound is the signed root (z < 0), which is what a one-sided interval at that level means".into());
+    crate::props::history::add(run, "C02", &[crate::props::history::WILSON, crate::props::history::WALD, crate::props::history::PSTATS], 3_000, 200_000);
 }
 
 pub fn replay(sub: &str, v: &Value, obs: &mut Obs) -> Option<PResult> {
     Some(match sub {
+        "history" => crate::props::history::case(&de(v), obs),
         "grid" | "random_big" | "random_front" => case(&de(v), obs),
         "front" => check_front_agreement(&de(v), obs),
         "is_significant" => is_significant_case(&de(v), obs),
